@@ -155,7 +155,20 @@ class Ctx:
             self.rad_cache[key] = root
             return root
         if not den.is_ground:
-            raise Unsupported("sqrt of a non-square rational function with symbolic denominator")
+            # sqrt(n/d) = sqrt(n*d)/|d| ; sign of d from the witness (recorded)
+            dX = X(self, self.F(den), None)
+            dX = self._with_wit(dX)
+            if dX.w is None:
+                raise Unsupported("sqrt of a non-square rational function with symbolic denominator needs a witness")
+            inner = self.sqrt(X(self, self.F(num * den), None if x.w is None else x.w * dX.w * dX.w))
+            if dX.w > 0:
+                self.pc.append((">", dX))
+                root = inner / dX
+            else:
+                self.pc.append(("<", dX))
+                root = inner / (-dX)
+            self.rad_cache[key] = root
+            return root
         # new radical generator s with s**2 = k (k polynomial with rational coefficients)
         k = num.quo_ground(den.LC) if hasattr(num, "quo_ground") else num * (1 / den.LC)
         wit = None
